@@ -51,6 +51,10 @@ def plan(tier, seed):
         for frac in ((0.3,) if tier == "quick" else (0.15, 0.3)):
             for extra in ((0, 1) if tier == "quick" else (0, 1, 2, 3)):
                 shards.append(("mosaic", ng, frac, extra))
+    for nt in (1, 2, 3):
+        shards.append(("bigtable", nt, 0))
+    for which in range(4):
+        shards.append(("wavelength", which))
     shards.append(("callers",))
     k = seed % len(shards)
     return shards[k:] + shards[:k]
@@ -118,7 +122,85 @@ def _run_mosaic(desc):
     return sh
 
 
+def _run_bigtable(desc):
+    """more than 4096 g-vectors (eight cubic grains, all reflections out to d* = 1.3, stored grain after grain as a merged peak table holds
+    them) with 1, 2 and 3 OpenMP threads in the compiled loops (score_and_assign deals the table out in blocks of 4096): every grain is
+    reported exactly once whatever the thread count - also the grains that live entirely beyond the first block"""
+    _, nt, extra = desc
+    from ImageD11 import indexing, unitcell as ucm, cImageD11 as cI
+    indexing.loglevel = 4
+    sh = Shard()
+    cell, sym, dsmax = [4.0, 4.0, 4.0, 90, 90, 90], "P", 1.3
+    hk, B = O.brute_hkls(cell, sym, dsmax)
+    hkls = np.array(sorted(hk), float)
+    nref = len(hkls)
+    ng = 8
+    shift = (seed_of() + extra) % len(ROT_TABLE)
+    rots = [O.rotation_from_axis_angle(*ROT_TABLE[(k + shift) % len(ROT_TABLE)]) for k in range(ng)]
+    ubis_true = [np.linalg.inv(np.dot(R, B)) for R in rots]
+    allgv = np.ascontiguousarray(np.concatenate([np.dot(np.dot(R, B), hkls.T).T for R in rots]))
+    minpks = int(0.8 * nref)
+    case = {"kind": "bigtable", "ngrains": ng, "reflections_per_grain": nref, "gvectors": len(allgv), "threads": nt, "orientation_set": extra, "seed": seed_of()}
+    cI.cimaged11_omp_set_num_threads(int(nt))
+    try:
+        ind = indexing.indexer(unitcell=ucm.unitcell(cell, sym), gv=allgv.copy(), cosine_tol=0.002, minpks=minpks, hkl_tol=0.01, ds_tol=0.005, wavelength=0.3,
+                               uniqueness=0.5, max_grains=100)
+        ind.assigntorings()
+        ind.score_all_pairs()
+    finally:
+        cI.cimaged11_omp_set_num_threads(1)
+        indexing.loglevel = 4
+    found = [np.array(u) for u in ind.ubis]
+    m = [sum(1 for u in found if O.lattice_equivalent(u, t, tol=0.03)) for t in ubis_true]
+    if len(found) != ng or any(x != 1 for x in m):
+        sh.violation("completeness:grain-of-a-large-table-not-reported-exactly-once", case, {"reported": len(found), "matches_per_true_grain": m})
+    sh.evaluations += 1
+    sh.nontrivial += 1
+    sh.outcomes.add(("bigtable", nt, len(found)))
+    sh.sample(case, limit=1)
+    return sh
+
+
+def _run_wavelength(desc):
+    """g-vectors are all the indexer needs: the wavelength only serves the two-theta column of the ring table it prints.  Tables reaching
+    beyond the d* the wavelength can diffract (wavelength left at its default, or a long laboratory wavelength with g-vectors computed
+    elsewhere) are indexed like any other: every grain reported exactly once"""
+    _, which = desc
+    from ImageD11 import indexing, unitcell as ucm
+    indexing.loglevel = 4
+    sh = Shard()
+    cell, sym, dsmax, kw = [([2.87, 2.87, 2.87, 90, 90, 90], "I", 2.1, {}), ([4.0, 4.0, 4.0, 90, 90, 90], "P", 1.34, {"wavelength": 1.5406}),
+                            ([2.87, 2.87, 2.87, 90, 90, 90], "I", 1.9, {}), ([4.0, 4.0, 4.0, 90, 90, 90], "P", 1.29, {"wavelength": 1.5406})][which]
+    hk, B = O.brute_hkls(cell, sym, dsmax)
+    hkls = np.array(sorted(hk), float)
+    ng = 2
+    rots = [O.rotation_from_axis_angle(*ROT_TABLE[(k + seed_of() + which) % len(ROT_TABLE)]) for k in range(ng)]
+    ubis_true = [np.linalg.inv(np.dot(R, B)) for R in rots]
+    allgv = np.concatenate([np.dot(np.dot(R, B), hkls.T).T for R in rots])
+    order = (np.arange(len(allgv)) * 7919) % len(allgv) if np.gcd(7919, len(allgv)) == 1 else np.arange(len(allgv))[::-1]
+    allgv = np.ascontiguousarray(allgv[order])
+    case = {"kind": "wavelength", "which": which, "cell": cell, "sym": sym, "dsmax": dsmax, "wavelength": kw.get("wavelength", "default"), "seed": seed_of()}
+    ind = indexing.indexer(unitcell=ucm.unitcell(cell, sym), gv=allgv.copy(), cosine_tol=0.002, minpks=int(0.8 * len(hkls)), hkl_tol=0.02, ds_tol=0.005,
+                           uniqueness=0.5, max_grains=100, **kw)
+    ind.assigntorings()
+    ind.score_all_pairs()
+    indexing.loglevel = 4
+    found = [np.array(u) for u in ind.ubis]
+    m = [sum(1 for u in found if O.lattice_equivalent(u, t, tol=0.03)) for t in ubis_true]
+    if len(found) != ng or any(x != 1 for x in m):
+        sh.violation("completeness:grain-not-reported-exactly-once", case, {"reported": len(found), "matches_per_true_grain": m})
+    sh.evaluations += 1
+    sh.nontrivial += 1
+    sh.outcomes.add(("wavelength", which, len(found)))
+    sh.sample(case, limit=1)
+    return sh
+
+
 def run_shard(desc):
+    if desc[0] == "wavelength":
+        return _run_wavelength(desc)
+    if desc[0] == "bigtable":
+        return _run_bigtable(desc)
     if desc[0] == "mosaic":
         return _run_mosaic(desc)
     if desc[0] == "callers":
@@ -441,6 +523,14 @@ def run_shard(desc):
 
 
 def replay(case):
+    if case.get("kind") == "wavelength":
+        os.environ["VERIF_SEED"] = str(case.get("seed", 0))
+        r = _run_wavelength(("wavelength", case["which"]))
+        return (not r.violations), {"violations": r.violations[:2]}
+    if case.get("kind") == "bigtable":
+        os.environ["VERIF_SEED"] = str(case.get("seed", 0))
+        r = _run_bigtable(("bigtable", case["threads"], case["orientation_set"]))
+        return (not r.violations), {"violations": r.violations[:2]}
     if case.get("kind") == "callers":
         from vt.props import c06
         return c06.replay(case)
